@@ -62,6 +62,9 @@ ALLOW_AXIOMS = ()
 
 IMPORTS = "From Cooler Require Import Model.Dump."
 D18 = "dump-header-missing-when-no-pixel-in-row-range"
+NA_NAME = "na-token-chromosome-name-refused"
+# pandas' default NA tokens (pandas._libs.parsers.STR_NA_VALUES)
+NA_TOKENS = {"", "#N/A", "#N/A N/A", "#NA", "-1.#IND", "-1.#QNAN", "-NaN", "-nan", "1.#IND", "1.#QNAN", "<NA>", "N/A", "NA", "NULL", "NaN", "None", "n/a", "nan", "null"}
 
 
 # ============================================================ small coolers
@@ -1782,6 +1785,96 @@ def run_history(ctx, runner, cli):
     ctx.extra["history_steps"] = step[0]
 
 
+# ============================================================ G. representations of chromosome names
+NAME_ALPHABETS = [
+    ("all-digits", ["1", "2", "10"]),
+    ("one-digit-name", ["7"]),
+    ("leading-zeros", ["01", "02", "007"]),
+    ("same-number-different-text", ["1", "01", "001"]),
+    ("mixed-digit-letter", ["1", "X", "MT"]),
+    ("float-like", ["2.0", "3.5", "10.25"]),
+    ("scientific", ["1e5", "2E3", "1e-2"]),
+    ("na-like", ["NA", "nan", "null"]),
+    ("na-like-2", ["None", "NaN", "NULL"]),
+    ("bool-like", ["true", "false", "True"]),
+    ("inf-hex-sign", ["inf", "0x1A", "+1"]),
+    ("dots-dashes-underscores", ["chr1.1", "chr_2-x", "a.b_c-d"]),
+    ("very-long", ["L" * 180 + "1", "L" * 180 + "2"]),
+    ("everything-mixed", ["1", "NA", "chrX.1", "true", "01"]),
+]
+
+
+class SigCtx:
+    """forwards to the real context; failures of load / cload runs that exit non-zero carry the given signature"""
+
+    def __init__(self, ctx, signature):
+        self._ctx, self._sig = ctx, signature
+
+    def fail(self, case, detail, signature=None):
+        refused = isinstance(detail, dict) and str(detail.get("exit")) not in ("0", "None")
+        self._ctx.fail(case, detail, self._sig if (signature is None and refused) else signature)
+
+    def __getattr__(self, name):
+        return getattr(self._ctx, name)
+
+
+def names_cooler(names, variable, rng):
+    """a small symmetric cooler over the given chromosome names (binsize 10, or variable bins)"""
+    widths = []
+    for k in range(len(names)):
+        widths.append([7, 13 + k] if variable else [10] * (1 + k % 2) + [3 + k])
+    n = sum(len(w) for w in widths)
+    px = random_px(rng, n, True, 0.5) or [(0, 0, 1)]
+    return Cool(widths, px, None, True, "names", names=names)
+
+
+def run_names(ctx, runner, cli, thorough):
+    """text in = collection out whatever the chromosome names look like: names are strings, in the order given"""
+    from common import load_known
+    rng = ctx.rng
+    ndir = ctx.tmp / "names"
+    ndir.mkdir(exist_ok=True)
+    na_registered = any(kf.get("signature") == NA_NAME and kf.get("property") == PROP for kf in load_known())
+    for ai, (tag, names) in enumerate(NAME_ALPHABETS):
+        for variable in ((False, True) if thorough else (bool(ai % 2),)):
+            cool = names_cooler(names, variable, rng)
+            uri = str(ndir / f"n{ai}{int(variable)}.cool")
+            cool.create(uri)
+            # dump: ids, joined names, tables
+            for st in (dict(), dict(join=True, header=True)):
+                o = default_opts(); o.update(st)
+                code, text = invoke(runner, cli, cli_args(o, uri))
+                check_dump_case(ctx, cool, o, code, text, SKIP, None)
+            history_tables(ctx, runner, cli, cool, uri)
+            # a chromosome named like a pandas NA token cannot be re-imported (candidate finding NA_NAME, reported to the lead):
+            # its load / cload half runs once the signature is a registered known finding of C16; the dump half always runs
+            na_names = bool(NA_TOKENS & set(cool.names))
+            if na_names and not na_registered:
+                ctx.extra.setdefault("names_load_half_withheld", []).append(tag)
+                continue
+            sigctx = SigCtx(ctx, NA_NAME) if na_names else ctx
+            # dump --join | load -f bg2 and dump | load -f coo, bins given as a BED file and as chromsizes:binsize
+            kinds = ["bed"] + (["sizes"] if fixed_binsize(cool) is not None else [])
+            for kind in kinds:
+                for fmt in ("bg2", "coo"):
+                    o = default_opts(); o["join"] = fmt == "bg2"
+                    code, text = invoke(runner, cli, cli_args(o, uri))
+                    case = {"kind": "load-dump", "cool": cool.spec(), "fmt": fmt, "one_based": False, "duplex": False, "chunk": None, "fields": [],
+                            "symm": True, "text": read_tsv(text) if code == 0 else None, "vn": ["count"], "bins": kind, "names": tag,
+                            "dump_opt": {kk: (list(v) if isinstance(v, tuple) else v) for kk, v in o.items()}, "post": {"bins_table": True}}
+                    sigctx.case(case, nontrivial=True, kind="names:load-" + fmt)
+                    if case["text"] is None:
+                        sigctx.fail(case, {"why": "the dump to be re-loaded failed"}, None)
+                        continue
+                    code, ires, storage = impl_load(runner, cli, cool, case, ndir, f"N{ai}")
+                    bad = oracle_load(cool, case, code, ires, storage)
+                    if bad:
+                        sigctx.fail(case, bad, None)
+                # hand-written bg2 (positions inside bins) and pairs files
+                history_ingest(sigctx, runner, cli, cool, kind, ndir, rng)
+    ctx.extra["name_alphabets"] = [t for t, _ in NAME_ALPHABETS]
+
+
 # ============================================================ run / replay
 def run(ctx):
     from click.testing import CliRunner
@@ -1801,7 +1894,8 @@ def run(ctx):
         run_cload(ctx, runner, cli, cools, thorough); tm["cload"] = round(time.time() - t0, 1); t0 = time.time()
         run_fieldparam(ctx); tm["fieldparam"] = round(time.time() - t0, 1); t0 = time.time()
         run_light(ctx, runner, cli, cools, uris, thorough); tm["light"] = round(time.time() - t0, 1); t0 = time.time()
-        run_history(ctx, runner, cli); tm["history"] = round(time.time() - t0, 1)
+        run_history(ctx, runner, cli); tm["history"] = round(time.time() - t0, 1); t0 = time.time()
+        run_names(ctx, runner, cli, thorough); tm["names"] = round(time.time() - t0, 1)
         ctx.extra["section_wall_s"] = tm
     finally:
         os.chdir(cwd)
